@@ -220,6 +220,16 @@ pub fn run(ctx: &mut Ctx) {
                     SItem::List(v)
                 };
                 s.c = (0..r.below(4)).map(|_| mk(&mut r, &mut uniq)).collect();
+                // one case in 30: a record whose values sit under very deep nesting (depth-first counting
+                // must not depend on how deep a value lies), with values before and after the deep part
+                if r.chance(1, 30) {
+                    let d = crate::gen::depth_tail(&mut r);
+                    let inner = mk(&mut r, &mut uniq);
+                    let deep = crate::gen::deep_wrap(&mut r, inner, d);
+                    uniq += 1;
+                    s.c.insert(0, SItem::List(vec![SItem::Int(uniq), deep, SItem::Float(fb(uniq as f32 + 0.25)), SItem::Bool(true)]));
+                    ctx.rec.max("max_record_nesting", d as u64);
+                }
                 if r.chance(1, 6) {
                     s.c.insert(0, SItem::Int(4242)); // an atom instead of a record
                 }
